@@ -16,10 +16,10 @@ COMMON_NOTE = ("Trusted base: Lean 4.33.0 kernel (+ leanchecker in the thorough 
 META = {
  "C01": dict(ref="6.1", technique="Lean 4 proof (route-independent dispatcher theorem, proved sieve/window oracles) + correspondence",
    text="Theorems: the size dispatcher returns pi(x) whenever each route does (Legendre/Meissel/Gourdon identities are proved in PcProofs/Spec for all x and parameters); decimal rendering round-trips; the oracles used as judge (trial division, sieve, window count) are proved equal to Nat.primeCounting. The tie to the code is the correspondence stream over all entry points.",
-   note="Proved: control flow of pi_legendre / pi_meissel / pi_lehmer / pi_lmo1..4 = pi(x) (C02Algs), every Gourdon / DR term's loop = its definition (C08*), dispatcher route-independent. Still tied by correspondence only: the composition inside pi_gourdon / pi_deleglise_rivat / pi_lmo5 / pi_lmo_parallel, AC's C1 and level pruning, table constructors vs their proved models; pi_cache_ table tied by generated obligations (C17). Source-mirror obligations (PcProps/C01Src) pin the text of the modelled functions."),
+   note="Proved (C01Top, C02Top, C02Algs, C08*): the dispatcher of api.cpp with every route discharged (piApi_eq_pi), pi_deleglise_rivat (every accepted x < 2^106), pi_gourdon (x < 2 or x >= 2401), pi_lmo5, pi_lmo_parallel, pi_legendre/meissel/lehmer/lmo1..4, each with every term computed by its real-control-flow model, for every float outcome in the named envelopes and every run of every parallel region. Remaining named hypotheses: table / iterator / sieve contracts (TablesOK, proved for the constructor models in C17, adapter in progress), PhiContract (C07Cache proves it for the real cache), the AC hook (proved in C08EasyAC: wiring in progress), float envelopes. Source-mirror obligations pin the text of ~430 modelled functions."),
  "C02": dict(ref="6.2", technique="Lean 4 proof (Legendre, Meissel, Lehmer, LMO, Deleglise-Rivat and Gourdon identities for all x) + correspondence",
    text="Every algorithm evaluates an identity that is proved in Lean for all x and all admissible parameters (legendre, meissel, lehmer, pi_lmo, pi_dr, GParams.pi_gourdon); the REAL control flow of pi_legendre, pi_meissel, pi_lehmer, P3, pi_lmo1..4 (incl. the segmented sieve engine for every segment size and the Fenwick tree) is modelled and proved = pi(x) for all x; each remaining implementation is tied to the terms of its identity by exhaustive small ranges and structured samples against the proved sieve oracle.",
-   note="pi_lmo5 / pi_lmo_parallel / pi_deleglise_rivat / pi_gourdon: each TERM's loop is proved (C08), their composition is tied by correspondence. int64 overflow freedom of accumulators not proved (C16)."),
+   note="pi_lmo5 / pi_lmo_parallel / pi_deleglise_rivat / pi_gourdon compositions are proved (C02Top, C02TopLmo) modulo the named contracts listed under C01; Gourdon for 2 <= x < 2401 (get_k < 4) is covered by the exhaustive streams only. int64 overflow freedom of accumulators: C16Safety*."),
  "C03": dict(ref="6.3", technique="Lean 4 proof (dispenser totality over all event lists, reductions under permutation) + trace acceptance",
    text="For every event list (any worker count, order, clock trace) accepted by the L2 step relation the chunks partition the range and the accumulated sum is the sum of an additive per-chunk function; reductions are permutation invariant; an atomic counter hands out each index once. Real balancer objects are driven by simulated workers and every recorded history must be accepted.",
    note="Proved for every accepted history / schedule: P2, B (C03P2), S1, Phi0 (C03Leaf), S2_hard, D regions (C03Hard: any LoadBalancerS2 history gives Spec.S2_hard / Spec.D), S2_easy (any distribution of the atomic counter). Mutual exclusion of omp locks, OpenMP reductions/barriers and std::atomic are trusted runtime semantics; AC's segment additivity is proved per kernel (A, C2), C1 by correspondence."),
@@ -30,11 +30,11 @@ META = {
    text="windowPrimes is proved to equal pi(b) - pi(a); increments of the implementation over windows up to 1e16 (2^63 in thorough) are compared with it.",
    note="as C01"),
  "C06": dict(ref="6.6", technique="Lean 4 proof (walk from an arbitrary approximation reaches the n-th prime) + correspondence",
-   text="nth_prime's search is proved to return the n-th prime for every approximation of R^-1 and both walk directions; table entries are kernel-checked obligations generated from the source.",
-   note="pi(2^63) literature constant is a named hypothesis; primesieve iterator is the abstract prime sequence (C18)."),
+   text="nth_prime's search is proved to return the n-th prime for every approximation of R^-1 and both walk directions, over the REAL iterator model of the bundled primesieve (nth_prime_cpp_correct: every 1 <= n <= max_n, every approximation in [0, 2^63), every hint and float outcome), incl. the C wrapper (-1 exactly on domain errors) and the CLI narrowing; table entries are kernel-checked obligations generated from the source.",
+   note="named hypotheses: GenSpec (sieving core: proved in C18CoreContract, wiring in progress), pi = pi on int64 (C01Top), pi_cache (C17), RiemannR_inverse returns a value in [0, 2^63), the literature constant p(max_n) < 2^63."),
  "C07": dict(ref="6.7", technique="Lean 4 proof (guards, tiny tables by periodicity, recursion for any cache) + correspondence",
-   text="phi's guards, the PhiTiny formula (periodicity) and the recursive algorithm with an arbitrary spec-consistent cache are proved equal to the Legendre sum; tables are generated from the binary and kernel-checked.",
-   note="pix_upper bound is a named hypothesis."),
+   text="phi's guards, the PhiTiny formula (periodicity), the recursive algorithm and the REAL PhiCache (constructor geometry, init_cache bit sieve with prefix counts, phi_cache lookup, the c = larger_c side effect, per-thread caches, phi_vector's copy) are modelled bit for bit and proved: phi_cpp_correct — phi(x, a) = the Legendre sum for all x, a, every float estimate and every thread distribution; the uint32 counts never truncate; tables are generated from the binary and kernel-checked.",
+   note="pix_upper bound (two guards of phi_OpenMP) is a named hypothesis; pi_noprint = pi (C01) and the prime vector / PiTable (C17) are parameters."),
  "C08": dict(ref="6.8", technique="Lean 4 proof (lmo_general, dr_split, gourdon_decomp for all parameters) + correspondence against defining sums",
    text="S1 + S2 = phi(x, pi(y)) and A - B + C + D + Phi0 + Sigma = pi(x) are proved for all x and every admissible (y, z, k|c) (PcProofs/Spec). The REAL control flow of P2, B, P3, S1, Phi0, Sigma, S2_trivial, S2_easy (both division variants), S2_hard and D (thread functions for every work item, chunk chains, OpenMP regions for every balancer history) is modelled and proved equal to the Spec definitions; A and C2 kernels of AC are proved per (segment, b). Every term of the code is also compared with an executable evaluation of its defining sum on exhaustive small scopes and boundary-heavy samples.",
    note="AC: C1 recursion, the C2/C1 -> Spec.C bridge and the per-segment level pruning are tied by correspondence (whole AC_OpenMP not yet proved). Table parameters (primes, PiTable, FactorTable, Sieve contract) are hypotheses discharged by C17's constructor models + streams; accumulators are exact integers (overflow: C16). Source-mirror obligations (C08Src, C08SrcLoops, C08P2) pin the text of every modelled function, incl. the AVX512/SVE twin files."),
@@ -60,8 +60,8 @@ META = {
    text="the AVX512 / POPCNT / portable counting paths are proved to compute the same count; the same op streams run under forced CPU-dispatch settings and build variants and must be identical.",
    note="ARM SVE not buildable here; compiler trusted."),
  "C16": dict(ref="6.16", technique="Lean 4 proof (safety half of the L2 models) + sanitizer correspondence — partial",
-   text="partial: for the modelled functions no intermediate leaves its type / index range (safety theorems); the union of the op streams runs on an ASan+UBSan+assert build.",
-   note="unmodelled code is covered by the sanitizer run only (validation); accumulator additions of the loop models are exact integers (overflow freedom not yet proved); san build includes -fsanitize=float-cast-overflow (finding F6: truncate3)."),
+   text="partial: for the modelled functions no intermediate leaves its type / index range (safety theorems: roots, calculator, C buffer, tuning setters, P2 closed form, P2/B/Sigma/S2_trivial/S2_easy accumulators over width-checked mirrors, every table read of every loop model in bounds); the union of the op streams runs on an ASan+UBSan(+float-cast-overflow)+assert build.",
+   note="unproved accumulators: A/C kernels, S1/Phi0, S2_hard/D, Sigma int64 for x > 8.38e17, the 64-bit product phi_xpq*(l-lmin) of the 128-bit S2_easy for y > 7.3e10 (needs prime-gap bounds); unmodelled code is covered by the sanitizer run only (validation); LoadBalancerS2 overflows under a constant clock on ranges >= 2^56 (outside the quantifier, recorded)."),
  "C17": dict(ref="6.17", technique="Lean 4 proof (table obligations by decide, lookup and sieve invariants) + bit-exact correspondence",
    text="tables dumped from the built library are kernel-checked against their defining formulas; lookup/count theorems lift them to pi(n) and exact unsieved counts; real objects are compared bit for bit with the L2 model.",
    note="prime generator = abstract prime sequence (C18). Large multi-threaded tables are compared by hash with the mirror model and a differing entry is judged against the documented encoding."),
